@@ -195,6 +195,7 @@ def check_case(case):
     mpv = {"young": stt["young"], "fprio": stt["fprio"], "fpost": stt["fpost"], "mb": vals["mb"]}
     sent = gb.sentinel([stt["sent"], stt["sent"] * 31 + 7, stt["sent"] * 131 + 3], 40 + gb.KSIZE)
     outs = {}
+    errs = {}
     for pol in ("None", "Warning", "Strict"):
         b = gb.Buffers(lib, h)
         b.g0[:gsize], b.g1[:gsize] = g0, g1
@@ -308,6 +309,8 @@ def check_case(case):
         tol = (1e-9 if p["dsl"] == "Implicit" else 1e-13) * scale
         sig = p["cs"] * stt["young"] * e1
         ok, e = close(b.tf1[:ss], sig, tol)
+        ek = "stress." + p["dsl"] + (".gl" if p["gl"] else "")
+        errs[ek] = max(errs.get(ek, 0.0), e / tol)
         if not ok:
             if p["gl"] and r == 0 and gb.bits(b.tf1) == gb.bits(tfin):
                 return Result(False, "C39.return0.strain_measure_wrapper.stress_not_exported",
@@ -320,6 +323,7 @@ def check_case(case):
         if "ElasticStrain" in off:
             exp_iv[off["ElasticStrain"][0]:off["ElasticStrain"][0] + ss] = e1
         ok, e = close(b.iv1[:ivn], exp_iv, 1e-9 * max(1.0, float(np.max(np.abs(exp_iv)))))
+        errs["isvs." + p["dsl"]] = max(errs.get("isvs." + p["dsl"], 0.0), e / (1e-9 * max(1.0, float(np.max(np.abs(exp_iv))))))
         if not ok:
             return Result(False, "C39.integration.isvs" + sfx, "internal state variables error %g: %s" % (e, ctx))
         if p["has_energy"]:
@@ -349,7 +353,7 @@ def check_case(case):
     if zone is not None:
         return Result(True, classes=["unjudged.zone"])
     rdt_lt1 = "rdt.lt1" in classes
-    return Result(True, nontrivial=bool(flag or pred or rdt_lt1), classes=sorted(set(classes)))
+    return Result(True, nontrivial=bool(flag or pred or rdt_lt1), classes=sorted(set(classes)), errs=errs)
 
 
 # ------------------------------------------------------------------ strategy
